@@ -9,21 +9,6 @@ set_option linter.unusedSimpArgs false
 
 namespace EkwVerif.Ctrl
 
-theorem i2b_snd_inj : ∀ (l : List (Worker × Task)) (a b : Worker) (t : Task),
-    (l.map (·.2)).Nodup → (a, t) ∈ l → (b, t) ∈ l → a = b
-  | [], _, _, _, _, ha, _ => by cases ha
-  | x :: l, a, b, t, hnd, ha, hb => by
-    simp only [List.map_cons, List.nodup_cons] at hnd
-    rcases List.mem_cons.mp ha with ha' | ha' <;> rcases List.mem_cons.mp hb with hb' | hb'
-    · rw [← hb'] at ha'; exact (Prod.mk.inj ha').1
-    · subst ha'
-      have : (b, t).2 ∈ l.map (·.2) := List.mem_map.mpr ⟨(b, t), hb', rfl⟩
-      exact absurd this hnd.1
-    · subst hb'
-      have : (a, t).2 ∈ l.map (·.2) := List.mem_map.mpr ⟨(a, t), ha', rfl⟩
-      exact absurd this hnd.1
-    · exact i2b_snd_inj l a b t hnd.2 ha' hb'
-
 theorem i2b_isLast_inj (j : Job) (d d' : Ds) (h : j.isLast d = true) (h' : j.isLast d' = true)
     (ht : d'.task = d.task) : d' = d := by
   cases d with | mk t k => cases d' with | mk t' k' =>
